@@ -140,7 +140,7 @@ def build(lp):
         f = seen[ti]
         seen[ti] += 1
         data = b''.join(b for chv in frame_values(ti, t, f) for b, _v in chv)
-        payload = R.iflr_payload((1, 0, t['name'].encode()), f + 1, data)
+        payload = R.iflr_payload((1, 0, t['name'].encode()), f + lp.get('number0', 1), data)
         rec = {'eflr': False, 'type': 0, 'payload': payload}
         if lp.get('layout') == 'split':
             rec['cuts'] = [len(payload) // 2]
@@ -273,7 +273,7 @@ def check_index(system):
         for f in range(n_model):
             ref = xaxis[f]
             info = system.lay.records[system.iflr_recs[ti][f]]
-            if ref.frame_number != f + 1:
+            if ref.frame_number != f + lp.get('number0', 1):
                 bad.append(({'kind': 'index_frame_number'}, '%s frame %d: number %r' % (t['name'], f, ref.frame_number)))
             if (ref.logical_record_position.vr_position, ref.logical_record_position.lrsh_position) != (info['vr_position'], info['lrsh_position']):
                 bad.append(({'kind': 'index_position'}, '%s frame %d: position %s' % (t['name'], f, ref.logical_record_position)))
@@ -379,6 +379,19 @@ def gen_S(tier):
             yield lp, ops
 
 
+def gen_N(tier):
+    """Recorded frame numbers that straddle the UVARI size boundaries 127/128 and 16383/16384 (the frame number is a
+    variable length integer in front of the frame data)."""
+    cfgs = [[ch('X', 7, [1]), ch('A', 13, [3])], [ch('X', 2, [1]), ch('A', 12, [2, 2]), ch('B', 7, [1])]]
+    for cfg in cfgs:
+        for number0 in (126, 16382, 1):
+            for n in (4, 5):
+                lp = {'types': [{'name': 'FT0', 'channels': cfg, 'n': n}], 'layout': 'one', 'number0': number0}
+                csets = [None, [], [cfg[1]['name']]]
+                ops = [['populate', 0, s, cs] for s in all_selections(n, n) for cs in csets]
+                yield lp, ops
+
+
 def interleavings(n0, n1):
     for pos in itertools.combinations(range(n0 + n1), n0):
         yield [0 if i in pos else 1 for i in range(n0 + n1)]
@@ -431,6 +444,7 @@ def shards(tier):
     out = [{'gen': 'V', 'part': p, 'of': 48} for p in range(48)]
     out += [{'gen': 'S', 'part': p, 'of': 12} for p in range(12)]
     out += [{'gen': 'I', 'part': p, 'of': 24} for p in range(24)]
+    out += [{'gen': 'N', 'part': p, 'of': 12} for p in range(12)]
     out += [{'gen': 'H', 'part': p, 'of': 3} for p in range(3)]
     return out
 
@@ -448,7 +462,7 @@ def run_shard(shard, tier):
             res.case(h64(repr(lp)), nontrivial=True, outcome=h64((st, tr)),
                      sample={'lp': lp, 'states': st, 'transitions': tr, 'frontier_closed': closed, 'menu_size': len(menu)})
         return res
-    gen = {'V': gen_V, 'S': gen_S, 'I': gen_I}[g](tier)
+    gen = {'V': gen_V, 'S': gen_S, 'I': gen_I, 'N': gen_N}[g](tier)
     for i, (lp, ops) in enumerate(gen):
         if i % shard['of'] != shard['part']:
             continue
